@@ -364,21 +364,55 @@ func runSequential(c Case) (r seqResult) {
 			if op.K == "init" {
 				// Store.Init offering this id as a seed: creates it the first time Init runs,
 				// unless the id exists already; otherwise nothing happens
+				// Then "race": a Create of the same id (A2, B2) from another goroutine commits
+				// while Init is between its existence checks and its commit. Either Init fails
+				// as a whole and the Create stands, or the Create fails and Init stands.
+				raced, fired := op.Then == "race", false
+				var raceErr error
 				op.Then = ""
+				if raced {
+					badgerstore.VerifHook = func(point string, arg interface{}) {
+						if point != "init.seeded" || fired {
+							return
+						}
+						fired = true
+						done := make(chan error)
+						go func() { done <- m.mutate(Op{K: "create", ID: op.ID, A: op.A2, B: op.B2}) }()
+						raceErr = <-done
+					}
+				}
 				err := m.st.Init(func(add func(id string, v interface{})) error {
 					add(op.ID, Rec{A: op.A, B: op.B})
 					return nil
 				})
-				if err != nil {
-					r.c13 = fmt.Sprintf("op %d %v: Init failed: %v", i, op, err)
+				badgerstore.VerifHook = nil
+				if fired != (raced && !inited) {
+					r.c13 = fmt.Sprintf("op %d %v: Init reached its seeding point: %v, store initialised before: %v", i, op, fired, inited)
 					return
 				}
-				if inited || exists0 {
-					inited = true
-					continue
+				if fired && (raceErr == nil) == exists0 {
+					r.c13 = fmt.Sprintf("op %d %v: Create during Init returned %v, model exists=%v (store contract, see C11)", i, op, raceErr, exists0)
+					return
 				}
-				inited = true
-				op.K = "create"
+				if fired && raceErr == nil {
+					// the Create committed first: Init may fail (nothing of it applied, to be
+					// called again) or succeed having skipped the id
+					if err == nil {
+						inited = true
+					}
+					op.K, op.A, op.B = "create", op.A2, op.B2
+				} else {
+					if err != nil {
+						r.c13 = fmt.Sprintf("op %d %v: Init failed: %v", i, op, err)
+						return
+					}
+					if inited || exists0 {
+						inited = true
+						continue
+					}
+					inited = true
+					op.K = "create"
+				}
 			} else {
 				if (op.K == "create") == exists0 {
 					op.Then = "" // the first mutation fails: nothing follows
